@@ -566,6 +566,9 @@ func (t *Tree) RerootMidPoint() error {
 			potentialedges = edges
 		}
 	}
+	if potentialedges == nil {
+		return errors.New("Cannot reroot at midpoint: all paths between tips have a null length")
+	}
 	// Path potentialedges starts from tip 1:
 	// potentialedges[0].Right()
 	// And ends at tip 2:
